@@ -39,6 +39,7 @@ CliClause(e) ==
   ELSE IF e.lib = "accept" /\ e.exit # 0 THEN "ConformantExitsZero"
   ELSE IF e.lib = "reject" /\ e.exit # 2 THEN "NonConformantExitsTwo"
   ELSE IF e.lib = "reject" /\ ~(e.marker_offset /\ e.marker_explain /\ e.marker_hint) THEN "RejectionIsLocatedAndExplained"
+  ELSE IF e.lib = "reject" /\ e.offset_lib >= 0 /\ e.offset_cli # e.offset_lib THEN "RejectionLocatedAtTheOffendingOffset"
   ELSE IF e.lib = "accept" /\ e.files # [i \in 1..e.npics_lib |-> i - 1] THEN "OnePairPerPictureNumberedFromZero"
   ELSE IF e.lib = "accept" /\ \E i \in 1..Len(e.pairs_equal) : ~e.pairs_equal[i] THEN "FileContentsEqualDecoderOutput"
   ELSE "ok"
